@@ -60,7 +60,8 @@ def materialise(world, dirpath, samples, build="hg19", profile_yaml=True, extra=
             reads = W.pair_names(reads, smp.get("phase_seed", 0))
         fn = f"{name}.bam"
         W.write_bam(os.path.join(dirpath, fn), world, reads, build=build, lowq=smp.get("lowq"),
-                    dup=smp.get("dup", 1), header_extra=smp.get("header_extra"))
+                    dup=smp.get("dup", 1), header_extra=smp.get("header_extra"),
+                    chr_prefix=bool(smp.get("chr_prefix")))
         man["samples"][name] = fn
     return man
 
